@@ -572,3 +572,528 @@ def adversary_c14(chk):
             chk.disagree(sc, got, mo, "simnet/adversary-names")
     if outs:
         chk.sample(dict(case=scen[0], impl=outs[0][:300], model=mouts[0]))
+
+
+# ------------------------------------------------------------------ RPC-level scenarios (C02, C06, C12, C11, C15)
+
+def body_pattern(n, seed):
+    return bytes(((i * 31) + seed) & 255 for i in range(n))
+
+
+def digest(b):
+    h = 0xcbf29ce484222325
+    for x in b:
+        h ^= x
+        h = (h * 0x100000001b3) & 0xFFFFFFFFFFFFFFFF
+    return "%d:%016x" % (len(b), h)
+
+
+_dcache = {}
+
+
+def pat_digest(n, seed):
+    k = (n, seed & 255)
+    if k not in _dcache:
+        _dcache[k] = digest(body_pattern(n, seed & 255))
+    return _dcache[k]
+
+
+def c02(chk):
+    quick = chk.tier == "quick"
+    scen, metas = [], []
+    n = 24 if quick else 300
+    for i in range(n):
+        rng = chk.rng
+        faults = rng.choice(["none", "jitter", "dup", "loss", "all"])
+        delay = rng.choice([200, 2000, 10000])
+        link = "delay=%d" % delay
+        if faults in ("jitter", "all"):
+            link += " jitter=%d" % (delay * 2)
+        if faults in ("dup", "all"):
+            link += " dup=%d" % rng.choice([50, 200])
+        if faults in ("loss", "all"):
+            link += " loss=%d" % rng.choice([10, 30])
+        cmds = ["seed=%d %s" % (rng.randrange(1 << 30), link),
+                "node 0 idle=60000 keepalive=5000", "node 1 idle=60000 keepalive=5000", "connect 0 1", "sleep 500"]
+        k = rng.choice([1, 4, 16, 64]) if quick else rng.choice([1, 8, 32, 64, 128])
+        rpcs = []
+        big = 0
+        for j in range(k):
+            a = rng.choice([0, 1])
+            b = 1 - a
+            r = rng.random()
+            size = 0 if r < 0.15 else rng.randrange(1, 3000) if r < 0.8 else rng.choice([65536, 300000]) if r < 0.97 or big >= 2 else 4 * 1024 * 1024
+            big += size > 1000000
+            rid = "r%dx%d" % (i, j)
+            args = "id=%s size=%d" % (rid, size)
+            rs = None
+            if rng.random() < 0.3:
+                rs = rng.choice([0, 1, 777, 70000])
+                args += " resp-size=%d" % rs
+            if rng.random() < 0.5:
+                args += " sleep-ms=%d" % rng.choice([1, 5, 20, 100, 400])
+            if rng.random() < 0.2:
+                args += " hdr-size=%d" % rng.choice([1, 100, 5000])
+            cmds.append("bg %s rpc %d %d %s" % (rid, a, b, args))
+            rpcs.append((rid, a, b, size, rs))
+        for rid, *_ in rpcs:
+            cmds.append("join %s 300000" % rid)
+        cmds += ["log 0", "log 1", "peers 0"]
+        scen.append("simnet " + " ; ".join(cmds))
+        metas.append((rpcs, faults))
+    outs, parsed = run_scenarios(chk, scen, "fabric:rpc")
+    for sc, o, res, (rpcs, faults) in zip(scen, outs, parsed, metas):
+        if res is None:
+            continue
+        chk.nontriv(sc)
+        chk.count("faults:" + faults)
+        chk.count("rpcs", len(rpcs))
+        cmds = [c.strip() for c in sc[len("simnet "):].split(" ; ")][1:]
+        r = {c: x for c, x in zip(cmds, res)}
+        sent_to = {0: {}, 1: {}}
+        for rid, a, b, size, rs in rpcs:
+            out = r["join %s 300000" % rid]
+            seed = len(rid) + b
+            want_sent = pat_digest(size, seed)
+            sent_to[b][rid] = (a, want_sent)
+            if out.startswith("ok"):
+                f = fields(out)
+                want_body = pat_digest(rs, len(rid)) if rs is not None else want_sent
+                if f["st"] != "200" or f["id"] != rid or f["srv"] != str(b) or f["from"] != str(b) or f["seen"] != str(a) or f["body"] != want_body or f["sent"] != want_sent:
+                    chk.monitor_fail("RPC %s (%d->%d) returned a response that is not its own: %s (expected body %s)" % (rid, a, b, out[:200], want_body), dict(case=sc[:3000]))
+            elif out == "HANG":
+                chk.monitor_fail("RPC %s neither returned nor failed" % rid, dict(case=sc[:3000]))
+            else:
+                # an error is acceptable only under datagram loss
+                if faults not in ("loss", "all"):
+                    chk.monitor_fail("RPC %s failed on a loss-free link: %s" % (rid, out[:100]), dict(case=sc[:3000]))
+        for node in (0, 1):
+            seen = {}
+            for e in r["log %d" % node].strip("[]").split("|"):
+                if not e:
+                    continue
+                f = dict(x.split("=", 1) for x in e.split(","))
+                rid = f["id"]
+                seen[rid] = seen.get(rid, 0) + 1
+                if rid not in sent_to[node]:
+                    chk.monitor_fail("node %d handled a request (%s) nobody sent to it" % (node, rid), dict(case=sc[:3000]))
+                    continue
+                a, want = sent_to[node][rid]
+                if f["from"] != str(a) or f["body"] != want:
+                    chk.monitor_fail("node %d handled request %s with wrong sender/body: %s" % (node, rid, e[:150]), dict(case=sc[:3000]))
+            dup = [k for k, v in seen.items() if v > 1]
+            if dup:
+                chk.monitor_fail("request(s) %s delivered to a handler more than once" % dup[:3], dict(case=sc[:3000]))
+    if outs:
+        chk.sample(dict(case=scen[0][:400], impl=outs[0][:400]))
+
+
+def c12(chk):
+    quick = chk.tier == "quick"
+    scen, metas = [], []
+    n = 16 if quick else 200
+    for i in range(n):
+        rng = chk.rng
+        maxbidi = rng.choice([4, 8, 16])
+        delay = rng.choice([1000, 5000, 20000])
+        cmds = ["seed=%d delay=%d" % (rng.randrange(1 << 30), delay),
+                "node 0 idle=600000 keepalive=5000 maxbidi=%d" % maxbidi,
+                "node 1 idle=600000 keepalive=5000 maxbidi=%d" % maxbidi, "connect 0 1", "sleep 500"]
+        count = maxbidi * rng.choice([3, 5, 8])
+        size = rng.choice([0, 100, 200000])
+        hsleep = rng.choice([5, 1000, 60000])
+        rtt_us = 2 * delay
+        live = 0
+        for j in range(count):
+            # abandon instants sweep the whole exchange: before transmission, mid-request, while the handler runs, after completion
+            u = rng.choice([0, 1, delay // 2, delay, delay + 1, rtt_us - 1, rtt_us + 10, rtt_us + hsleep * 500, rtt_us + hsleep * 1000 + 5000, 10 * rtt_us + hsleep * 2000])
+            cmds.append("rpc 0 1 id=a%d size=%d sleep-ms=%d abandon-us=%d" % (j, size, hsleep, u))
+            if rng.random() < 0.15 and live < 3:
+                cmds.append("bg live%d rpc 0 1 id=L%d size=50 sleep-ms=%d" % (live, live, rng.choice([10, 500])))
+                live += 1
+        for k in range(live):
+            cmds.append("join live%d 600000" % k)
+        cmds += ["sleep %d" % (rtt_us // 1000 * 3 + 100), "stat 1", "rpc 0 1 id=final size=10", "rpc 1 0 id=back size=10", "peers 0", "stat 0"]
+        scen.append("simnet " + " ; ".join(cmds))
+        metas.append((count, live, hsleep))
+    outs, parsed = run_scenarios(chk, scen, "fabric:abandon")
+    for sc, o, res, (count, live, hsleep) in zip(scen, outs, parsed, metas):
+        if res is None:
+            continue
+        chk.nontriv(sc)
+        cmds = [c.strip() for c in sc[len("simnet "):].split(" ; ")][1:]
+        r = {}
+        for c, x in zip(cmds, res):
+            r[c] = x
+        ab = [x for c, x in zip(cmds, res) if c.startswith("rpc 0 1 id=a")]
+        chk.count("abandoned", len([x for x in ab if x.startswith("abandoned")]))
+        chk.count("completed-before-abandon", len([x for x in ab if x.startswith("ok")]))
+        st = fields(r["stat 1"])
+        running = int(st["started"]) - int(st["completed"]) - int(st["dropped"])
+        if running != 0:
+            chk.monitor_fail("%d handler(s) of abandoned RPCs still running after the caller dropped them (started=%s completed=%s dropped=%s)" % (running, st["started"], st["completed"], st["dropped"]), dict(case=sc[:3000], impl=o[-600:]))
+        for k in range(live):
+            x = r["join live%d 600000" % k]
+            if not x.startswith("ok st=200") or "id=L%d" % k not in x:
+                chk.monitor_fail("a sibling RPC was disturbed by abandoned calls: " + x[:120], dict(case=sc[:3000]))
+        for c in ("rpc 0 1 id=final size=10", "rpc 1 0 id=back size=10"):
+            if not r[c].startswith("ok st=200"):
+                chk.monitor_fail("after %d abandoned calls a fresh RPC fails (stream capacity exhausted?): %s" % (count, r[c][:100]), dict(case=sc[:3000]))
+        if r["peers 0"] != "[1]":
+            chk.monitor_fail("abandoned calls tore down the connection", dict(case=sc[:3000]))
+    if outs:
+        chk.sample(dict(case=scen[0][:400], impl=outs[0][-400:]))
+
+
+def req_bytes(route, headers, body):
+    """Wire bytes of a request (layout of C07)."""
+    import struct
+    h = struct.pack("<Q", len(route)) + route + struct.pack("<Q", len(headers))
+    for k, v in headers:
+        h += struct.pack("<Q", len(k)) + k + struct.pack("<Q", len(v)) + v
+    return b"anemo\x00\x01\x00" + struct.pack(">I", len(h)) + h + struct.pack(">I", len(body)) + body
+
+
+def c06(chk):
+    quick = chk.tier == "quick"
+    scen = []
+    n = 16 if quick else 200
+    valid = req_bytes(b"/echo", [(b"id", b"adv")], b"hello")
+    for i in range(n):
+        rng = chk.rng
+        cmds = ["seed=%d delay=%d" % (rng.randrange(1 << 30), rng.choice([500, 5000])),
+                "node 1 key=1 name=n10 idle=60000 keepalive=5000 maxbidi=32", "node 2 key=2 name=n10 idle=60000 keepalive=5000",
+                "adv 8 k=7 names=n10", "advdial 8 1 sni=n10", "connect 2 1", "sleep 300",
+                "bg slow rpc 2 1 id=slow size=1000 sleep-ms=2000"]
+        ops = []
+        for j in range(rng.randrange(4, 30)):
+            r = rng.random()
+            if r < 0.2:
+                data = rng.randbytes(rng.choice([0, 1, 7, 8, 12, 40, 200]))
+            elif r < 0.45:
+                data = valid[:rng.randrange(0, len(valid))]                       # truncated at a random offset
+            elif r < 0.6:
+                m = bytearray(valid)
+                m[rng.randrange(len(m))] ^= rng.choice([1, 0x80, 0xff])
+                data = bytes(m)
+            elif r < 0.7:
+                data = b"anemo\x00\x01\x00" + rng.choice([b"\xff\xff\xff\xff", b"\x7f\xff\xff\xff", b"\x00\x80\x00\x01"]) + rng.randbytes(20)
+            elif r < 0.75:
+                data = b"anemo\x00\x01\x00" + b"\x00\x00\x00\x18" + b"\xff" * 8 + rng.randbytes(16)   # absurd string length
+            else:
+                data = valid
+            kind = rng.random()
+            if kind < 0.75:
+                act = rng.choice(["finish", "reset", "hold", "abandon", "stop"])
+                ops.append("advop 8 1 bi:%s:%s" % (data.hex() or "-", act))
+            elif kind < 0.85:
+                ops.append("advop 8 1 uni:%s" % (data.hex() or "-"))
+            elif kind < 0.95:
+                ops.append("advop 8 1 datagram:%s" % (data[:1000].hex() or "-"))
+            else:
+                ops.append("advop 8 1 bi:%s:finish" % valid.hex())
+            if rng.random() < 0.3:
+                ops.append("rpc 2 1 id=h%d size=%d" % (j, rng.choice([0, 100, 5000])))
+        ops.append("advop 8 1 bi:%s:finish" % valid.hex())      # a well-formed request of the hostile peer is still served
+        if rng.random() < 0.5:
+            ops.append("advop 8 1 close")
+        cmds += ops + ["join slow 600000", "rpc 2 1 id=after size=64", "rpc 1 2 id=rev size=64", "closed 1", "peers 1", "stat 1"]
+        scen.append("simnet " + " ; ".join(cmds))
+    outs, parsed = run_scenarios(chk, scen, "fabric:hostile")
+    for sc, o, res in zip(scen, outs, parsed):
+        if res is None:
+            continue
+        chk.nontriv(sc)
+        cmds = [c.strip() for c in sc[len("simnet "):].split(" ; ")][1:]
+        closed_conn = False
+        for c, x in zip(cmds, res):
+            if c.startswith("advop"):
+                chk.count("hostile:" + c.split()[3].split(":")[0] + (":" + c.split()[3].split(":")[2] if c.split()[3].startswith("bi") else ""))
+                if c.endswith("close"):
+                    closed_conn = True
+                if c == "advop 8 1 bi:%s:finish" % valid.hex() and not closed_conn and not x.startswith("answered"):
+                    chk.monitor_fail("a well-formed request of the hostile peer on another stream was not served: " + x, dict(case=sc[:3000]))
+            if c.startswith("rpc 2 1") or c.startswith("rpc 1 2") or c.startswith("join slow"):
+                if not x.startswith("ok st=200"):
+                    chk.monitor_fail("an honest RPC failed while a hostile peer was misbehaving: %s -> %s" % (c, x[:100]), dict(case=sc[:3000]))
+                else:
+                    f = fields(x)
+                    if f["body"] != f["sent"]:
+                        chk.monitor_fail("an honest RPC returned a wrong body while a hostile peer was misbehaving", dict(case=sc[:3000]))
+            if c == "closed 1" and not x.startswith("closed=0"):
+                chk.monitor_fail("the network shut down under hostile input: " + x, dict(case=sc[:3000]))
+            if c == "peers 1" and "2" not in x.strip("[]").split(","):
+                chk.monitor_fail("the honest peer was disconnected under hostile input: " + x, dict(case=sc[:3000]))
+    if outs:
+        chk.sample(dict(case=scen[0][:500], impl=outs[0][-400:]))
+
+
+def c11(chk):
+    """End-to-end deadlines: both ends' configured defaults x timeout header x handler duration."""
+    quick = chk.tier == "quick"
+    scen, models, metas = [], [], []
+    n = 40 if quick else 500
+    MS = 1000000
+    for i in range(n):
+        rng = chk.rng
+        delay_ms = rng.choice([1, 5, 20])
+        out_to = rng.choice([None, None, 100, 300, 1000])
+        in_to = rng.choice([None, None, 100, 300, 1000])
+        hk = rng.choice(["none", "none", "ms", "ms", "garbage", "huge"])
+        if hk == "ms":
+            hv = rng.choice([50, 200, 600, 2000])
+            hdr = str(hv * MS)
+        elif hk == "garbage":
+            hv, hdr = None, rng.choice(["abc", "-5", "", "1.5", str(2**64)])
+        elif hk == "huge":
+            hv, hdr = 2**64 - 1, str(2**64 - 1)
+        else:
+            hv, hdr = None, None
+        # handler duration: keep >= 10 ms away from every deadline involved
+        cands = [x for x in [10, 60, 150, 250, 400, 800, 1500, 3000]]
+        h = rng.choice(cands)
+        d1 = d2 = delay_ms
+        e_in = min([x for x in [in_to, (hv // MS if hv is not None and hv < 2**63 else None)] if x is not None], default=None)
+        e_out = min([x for x in [out_to, (hv // MS if hv is not None and hv < 2**63 else None)] if x is not None], default=None)
+        def near(a, b):
+            return a is not None and abs(a - b) < 10
+        served = min(h, e_in) if e_in is not None else h
+        if near(e_in, h) or near(e_out, d1 + served + d2):
+            continue
+        cmds = ["seed=%d delay=%d" % (rng.randrange(1 << 30), delay_ms * 1000),
+                "node 0 idle=600000 keepalive=5000" + (" out_to=%d" % out_to if out_to else ""),
+                "node 1 idle=600000 keepalive=5000" + (" in_to=%d" % in_to if in_to else ""),
+                "connect 0 1", "sleep 500",
+                "rpc 0 1 id=t size=20 sleep-ms=%d%s" % (h, " timeout-hdr=%s" % (hdr.encode().hex() or "-") if hdr is not None else ""),
+                "sleep %d" % (4 * delay_ms + 50), "stat 1", "rpc 0 1 id=again size=5", "peers 0"]
+        scen.append("simnet " + " ; ".join(cmds))
+        o = lambda x: "none" if x is None else str(x * MS)
+        models.append("trpc %s %s %s %d %d %d" % (o(out_to), o(in_to), "none" if hdr is None else (hdr.encode().hex() or "-"), h * MS, d1 * MS, d2 * MS))
+        metas.append((out_to, in_to, hdr, h, delay_ms))
+    outs, parsed = run_scenarios(chk, scen, "fabric:deadline")
+    mouts = run_model(models)
+    for sc, mc, o, res, mo, (out_to, in_to, hdr, h, delay_ms) in zip(scen, models, outs, parsed, mouts, metas):
+        if res is None:
+            continue
+        chk.nontriv(sc)
+        r = res[4]
+        el_ms = int(fields(r).get("t", "0")) / 1000.0
+        if r.startswith("ok st=200"):
+            got = "response"
+        elif r.startswith("ok st=408"):
+            got = "status408"
+        elif r.startswith("err timeout"):
+            got = "callertimeout"
+        else:
+            got = "other:" + r[:40]
+        chk.count("outcome:" + got.split(":")[0])
+        mk, mt = (mo.split() + ["0"])[:2]
+        if mk == "unspecified":
+            continue
+        mt_ms = int(mt) / 1e6
+        # model-independent monitor: the call never lasts longer than the smallest configured local limit
+        lim = [x for x in [out_to] if x is not None]
+        if lim and el_ms > min(lim) + 5:
+            chk.monitor_fail("an RPC lasted %.1f ms although the caller's outbound default is %d ms" % (el_ms, min(lim)), dict(case=sc, impl=r))
+        if in_to is not None and h > in_to + 10 and got == "response":
+            chk.monitor_fail("a handler needing %d ms was answered normally although the callee's inbound default is %d ms" % (h, in_to), dict(case=sc, impl=r))
+        if got != mk or abs(el_ms - mt_ms) > 4 + 0.2 * delay_ms:
+            chk.disagree(sc, "%s after %.1f ms" % (got, el_ms), "%s after %.1f ms (%s)" % (mk, mt_ms, mc), "simnet/deadline")
+            continue
+        st = fields(res[6])
+        if got != "response" and int(st["dropped"]) != 1:
+            chk.monitor_fail("the handler of a timed-out request was not dropped (started=%s completed=%s dropped=%s)" % (st["started"], st["completed"], st["dropped"]), dict(case=sc, impl=res[6]))
+        if not res[7].startswith("ok st=200"):
+            chk.monitor_fail("a follow-up RPC after a deadline event failed: " + res[7][:80], dict(case=sc))
+    if outs:
+        chk.sample(dict(case=scen[0], impl=outs[0][:300], model=mouts[0]))
+
+
+def hdr_size_req(route, headers):
+    return 8 + len(route) + 8 + sum(16 + len(k) + len(v) for k, v in headers)
+
+
+def hdr_size_resp(headers):
+    return 2 + 8 + sum(16 + len(k) + len(v) for k, v in headers)
+
+
+def c15(chk):
+    """The four placements of the limit x sizes around it x request vs response, header vs body."""
+    quick = chk.tier == "quick"
+    scen, models, metas = [], [], []
+    n = 40 if quick else 500
+    MIB8 = 8 * 1024 * 1024
+    for i in range(n):
+        rng = chk.rng
+        m = rng.choice([200, 1000, 4096, 65536])
+        place = rng.choice(["caller", "callee", "both", "neither", "different"])
+        cmax = m if place in ("caller", "both") else (2 * m if place == "different" else None)
+        smax = m if place in ("callee", "both", "different") else None
+        rid = "z%d" % i
+        which = rng.choice(["qb", "rb", "qh", "rh"])
+        d = rng.choice([-2, -1, 0, 1, 2, 50])
+        base_req_h = [("id", rid)]
+        qb = rb = 10
+        qpad = rpad = None
+        lim = min(x for x in [cmax, smax, MIB8] if x is not None)
+        if which == "qb":
+            qb = lim + d
+        elif which == "rb":
+            rb = lim + d
+        args = "id=%s size=%d resp-size=%d" % (rid, qb, rb)
+        req_h = [("id", rid), ("resp-size", str(rb))]
+        if which == "qh":
+            base = hdr_size_req("/echo", req_h + [("pad", "")])
+            qpad = max(0, lim + d - base)
+            args += " hdr-size=%d" % qpad
+            req_h.append(("pad", "q" * qpad))
+        if which == "rh":
+            # response headers written by the harness service: pad, srv, id, seen-from, origin
+            base = hdr_size_resp([("pad", ""), ("srv", "1"), ("id", rid), ("seen-from", "0"), ("origin", "in")])
+            rpad = max(0, lim + d - base)
+            args += " resp-hdr-size=%d" % rpad
+            req_h.append(("resp-hdr-size", str(rpad)))
+        qh = hdr_size_req("/echo", req_h)
+        rh = hdr_size_resp([("srv", "1"), ("id", rid), ("seen-from", "0"), ("origin", "in")] + ([("pad", "p" * rpad)] if rpad is not None else []))
+        cmds = ["seed=%d delay=500" % rng.randrange(1 << 30),
+                "node 0 idle=600000 keepalive=5000" + (" maxframe=%d" % cmax if cmax else ""),
+                "node 1 idle=600000 keepalive=5000" + (" maxframe=%d" % smax if smax else ""),
+                "connect 0 1", "sleep 300", "bg x rpc 0 1 " + args, "join x 60000", "rpc 0 1 id=after size=5", "peers 0", "stat 1"]
+        scen.append("simnet " + " ; ".join(cmds))
+        f = lambda x: "none" if x is None else str(x)
+        models.append("rpcsize %s %s %d %d %d %d" % (f(cmax), f(smax), qh, qb, rh, rb))
+        metas.append((cmax, smax, qh, qb, rh, rb, rid))
+    outs, parsed = run_scenarios(chk, scen, "fabric:size-limit")
+    mouts = run_model(models)
+    for sc, mc, o, res, mo, (cmax, smax, qh, qb, rh, rb, rid) in zip(scen, models, outs, parsed, mouts, metas):
+        if res is None:
+            continue
+        chk.nontriv(sc)
+        r = res[5]
+        chk.count("outcome:" + mo)
+        if r == "HANG":
+            chk.monitor_fail("an RPC with a frame near the limit neither returned nor failed (hang)", dict(case=sc, model=mo))
+            continue
+        delivered = r.startswith("ok st=200")
+        if delivered:
+            f = fields(r)
+            if f["body"] != pat_digest(rb, len(rid)):
+                chk.monitor_fail("delivered response is not intact", dict(case=sc, impl=r[:200]))
+        # the connection survives and a follow-up RPC works
+        if not res[6].startswith("ok st=200") or res[7] != "[1]":
+            chk.monitor_fail("a size-limit refusal damaged the connection: follow-up %s, peers %s" % (res[6][:60], res[7]), dict(case=sc))
+        # monitor restating C15 with configured limits (the unconfigured 8 MiB default is the codec-level known finding)
+        lim = min(x for x in [cmax, smax] if x is not None) if (cmax or smax) else None
+        if lim is not None:
+            want = all(x <= lim for x in (qh, qb, rh, rb))
+            if delivered != want:
+                chk.monitor_fail("limit %d: sizes (request header %d, body %d; response header %d, body %d) -> %s" % (lim, qh, qb, rh, rb, r[:60]), dict(case=sc))
+        if (mo == "delivered") != delivered or (mo == "caller-refuses-send" and not r.startswith("err toobig")):
+            chk.disagree(sc, r[:120], mo + " (" + mc + ")", "simnet/size-limit")
+    if outs:
+        chk.sample(dict(case=scen[0], impl=outs[0][:300], model=mouts[0]))
+
+
+def c08(chk):
+    """Shutdown (explicit or by dropping the last handle) with work in flight."""
+    quick = chk.tier == "quick"
+    scen, metas = [], []
+    n = 24 if quick else 300
+    for i in range(n):
+        rng = chk.rng
+        idle_wait = rng.choice([500, 2000])
+        cmds = ["seed=%d delay=%d" % (rng.randrange(1 << 30), rng.choice([500, 5000])),
+                "node 0 idle=10000 keepalive=3000 shutdown_idle=%d ctimeout=3000" % idle_wait,
+                "node 1 idle=10000 keepalive=3000", "node 2 idle=10000 keepalive=3000",
+                "connect 0 1", "connect 2 0", "sleep 300", "sub 0"]
+        jobs = []
+        def bg(cmd):
+            jid = "j%d" % len(jobs)
+            jobs.append((jid, cmd))
+            cmds.append("bg %s %s" % (jid, cmd))
+        for _ in range(rng.randrange(0, 4)):
+            bg("rpc 0 1 id=o%d size=%d sleep-ms=%d" % (len(jobs), rng.choice([0, 2000, 200000]), rng.choice([10, 2000, 60000])))
+        for _ in range(rng.randrange(0, 4)):
+            bg("rpc 1 0 id=i%d size=%d sleep-ms=%d" % (len(jobs), rng.choice([0, 2000]), rng.choice([10, 2000, 60000])))
+        for _ in range(rng.randrange(0, 3)):
+            bg("rpc 2 0 id=k%d size=10 sleep-ms=%d" % (len(jobs), rng.choice([10, 30000])))
+        if rng.random() < 0.5:
+            bg("connect 0 9 port=9")           # outbound dial to a dead address: pending when shutdown starts
+        if rng.random() < 0.3:
+            cmds += ["adv 8 k=7 names=net", "bg adv connect 0 8"]   # placeholder: an extra peer connecting
+            jobs.append(("adv", "connect 0 8"))
+        cmds.append("sleep %d" % rng.choice([0, 1, 5, 50, 500]))
+        mode = rng.choice(["explicit", "explicit", "drop", "double"])
+        if mode == "explicit":
+            cmds.append("shutdown 0")
+        elif mode == "double":
+            cmds += ["bg s1 shutdown 0", "bg s2 shutdown 0", "bg c1 connect 0 1", "join s1 120000", "join s2 120000", "join c1 120000"]
+        else:
+            # calls made through node 0's own handle borrow it: a handle can only be the last one
+            # to go once they are gone, so they are abandoned first
+            for jid, cmd in jobs:
+                if cmd.split()[1] == "0":
+                    cmds.append("cancel %s" % jid)
+            jobs = [(jid, cmd) for jid, cmd in jobs if cmd.split()[1] != "0"]
+            cmds += ["drop 0", "sleep %d" % (idle_wait + 1500)]
+        for jid, _ in jobs:
+            cmds.append("join %s 120000" % jid)
+        cmds += ["sleep 500", "closed 0", "stat 0", "events 0", "peers 1", "peers 2", "sleep 18000", "peers 1", "peers 2", "events 1"]
+        if mode != "drop":
+            cmds += ["connect 0 1", "rpc 0 1 id=late size=1", "shutdown 0", "disconnect 0 1", "peers 0"]
+        scen.append("simnet " + " ; ".join(cmds))
+        metas.append((mode, idle_wait, jobs))
+    outs, parsed = run_scenarios(chk, scen, "fabric:shutdown")
+    for sc, o, res, (mode, idle_wait, jobs) in zip(scen, outs, parsed, metas):
+        if res is None:
+            continue
+        chk.nontriv(sc)
+        chk.count("mode:" + mode)
+        chk.count("inflight-jobs", len(jobs))
+        cmds = [c.strip() for c in sc[len("simnet "):].split(" ; ")][1:]
+        r = {}
+        for c, x in zip(cmds, res):
+            r.setdefault(c, []).append(x)
+        bound_us = (idle_wait + 1000) * 1000
+        if mode == "explicit":
+            x = r["shutdown 0"][0]
+            if not x.startswith("ok"):
+                chk.monitor_fail("explicit shutdown returned an error: " + x, dict(case=sc[:3000]))
+            elif int(fields(x)["t"]) > bound_us:
+                chk.monitor_fail("shutdown took %s us, idle-wait bound is %d ms" % (fields(x)["t"], idle_wait), dict(case=sc[:3000]))
+        if mode == "double":
+            a, b = r["join s1 120000"][0], r["join s2 120000"][0]
+            if "HANG" in (a, b, r["join c1 120000"][0]):
+                chk.monitor_fail("a shutdown / connect call issued concurrently with shutdown hangs: %s %s %s" % (a, b, r["join c1 120000"][0]), dict(case=sc[:3000]))
+            if not (a.startswith("ok") or b.startswith("ok")):
+                chk.monitor_fail("neither of two concurrent shutdown calls succeeded: %s / %s" % (a, b), dict(case=sc[:3000]))
+        for jid, cmd in jobs:
+            x = r["join %s 120000" % jid][0]
+            if x == "HANG" or x.startswith("task-failed"):
+                chk.monitor_fail("a call pending at shutdown never returned (%s): %s" % (cmd, x), dict(case=sc[:3000]))
+        cl = r["closed 0"][0]
+        if mode != "drop" and cl != "closed=1 upgrade=0":
+            chk.monitor_fail("after shutdown: %s (expected closed, weak reference not upgradable)" % cl, dict(case=sc[:3000]))
+        if mode == "drop" and "upgrade=0" not in cl:
+            chk.monitor_fail("after dropping the last handle the weak reference still upgrades: " + cl, dict(case=sc[:3000]))
+        st = fields(r["stat 0"][0])
+        if st["clones"] != "0":
+            chk.monitor_fail("%s clone(s) of the user's service are still alive after shutdown" % st["clones"], dict(case=sc[:3000], impl=r["stat 0"][0]))
+        ev = r["events 0"][0].strip("[]").split(",")
+        if ev[-1] != "END":
+            chk.monitor_fail("subscriber did not reach end-of-stream after shutdown: %s" % ev[-5:], dict(case=sc[:3000]))
+        lost = set(e[1:].split(":")[0] for e in ev if e.startswith("-"))
+        if not {"1", "2"} <= lost and mode != "x":
+            chk.monitor_fail("subscriber did not receive the pending LostPeer events before end-of-stream: %s" % ev, dict(case=sc[:3000]))
+        prompt = not ("0" in r["peers 1"][0].strip("[]").split(",") or "0" in r["peers 2"][0].strip("[]").split(","))
+        chk.count("remote-noticed-promptly" if prompt else "remote-noticed-by-idle-timeout")
+        if "0" in r["peers 1"][1].strip("[]").split(",") or "0" in r["peers 2"][1].strip("[]").split(","):
+            chk.monitor_fail("remote peers did not observe the disconnect within the idle timeout: %s %s" % (r["peers 1"][1], r["peers 2"][1]), dict(case=sc[:3000]))
+        if mode != "drop":
+            late = [r["connect 0 1"][-1], r["rpc 0 1 id=late size=1"][0], r["shutdown 0"][-1], r["disconnect 0 1"][0]]
+            if any(x.startswith("ok") for x in late) or "HANG" in late:
+                chk.monitor_fail("an API call issued after shutdown did not return an error: %s" % late, dict(case=sc[:3000]))
+            if r["peers 0"][0] != "[]":
+                chk.monitor_fail("peers() after shutdown: " + r["peers 0"][0], dict(case=sc[:3000]))
+    if outs:
+        chk.sample(dict(case=scen[0][:500], impl=outs[0][-500:]))
